@@ -11,7 +11,7 @@ W = 2 ** 18
 
 
 def gen(rng, tier):
-    kind = rng.choice(['hex', 'hex', 'str', 'unicode', 'hex8', 'dec8', 'hexcounter'])
+    kind = rng.choice(['hex', 'hex', 'str', 'str-with-empty', 'unicode', 'hex8', 'dec8', 'hexcounter'])
     order = lambda: rng.choice(['asc', 'asc', 'desc', 'shuffle'])
     mode = rng.random()
     h = {'kind': kind, 'seed': rng.randrange(2 ** 31), 'ops': []}
